@@ -22,7 +22,7 @@ RULE = (
     "dims <= 12. Non-trivial = order >= 2 and start or end is not a multiple of prod(shape[1:]) (the shard starts or ends "
     "mid-row). Distinct = distinct (shape, start, end, offset, dtype)."
 )
-BOUNDS = "order 0..5; exhaustive numel<=24/48 plus zero-size shapes; random dims<=64, numel<=20000, DP oracle for range length<=4000; huge_boundaries: every slab size 2..1100 at ~3.5M elements, ranges ending on slab boundaries"
+BOUNDS = "order 0..5; exhaustive numel<=24/48 plus zero-size shapes; random dims<=64, numel<=20000, DP oracle for range length<=4000; huge_boundaries: every slab size 2..1100 at ~3.5M elements, ranges ending on slab boundaries; virtual_huge: shapes of up to 2^40 elements (never materialised), shards of <= 200k elements around slab boundaries"
 ASSUMPTIONS = [
     "torch.Tensor.untyped_storage().data_ptr()/storage_offset() faithfully report aliasing",
     "the DP oracle (own code) enumerates every slab k x shape[d+1:] inside one index of dims<d",
